@@ -5,7 +5,7 @@
    the proof that such an action cannot be grounded (the library raises KeyError there). *)
 From Coq Require Import List Ascii String Bool Arith Lia PrimFloat.
 From Verif Require Import Base.Result Base.Str Base.Sexp Base.PyDict Model.Tokenizer Model.Types Model.Domain
-  Model.Exec Spec.Pddl Spec.Grammar Spec.Faithful Proofs.C01_Defs Proofs.C01_Action Proofs.C01_Domain.
+  Model.Exec Spec.Pddl Spec.Grammar Spec.Faithful Spec.Fragment Proofs.C01_Defs Proofs.C01_Action Proofs.C01_Domain.
 Import ListNotations.
 Open Scope string_scope.
 Open Scope list_scope.
@@ -28,7 +28,7 @@ Definition example_text : string :=
      (:predicates (at ?v - vehicle ?p - place) (in ?c - crate ?v - vehicle) (clear ?p) (busy))
      (:functions (load ?v - vehicle) (cost))
      (:action drive :parameters (?v - truck ?from ?to - place)
-        :precondition (and (at ?v ?from) (not (= ?from ?to)) (or (clear ?to) (= ?to hq))
+        :precondition (and (at ?v ?from) (not (= ?from ?to)) (or (clear ?to) (at t0 ?to))
                            (forall (?c - crate) (or (not (in ?c ?v)) (<= (load ?v) 10)))
                            (>= (- 10 (load ?v)) 0.5))
         :effect (and (not (at ?v ?from)) (at ?v ?to) (increase (cost) (+ 1 (load ?v)))
@@ -47,6 +47,10 @@ Proof. vm_compute. reflexivity. Qed.
 Example example_read :
   match read_domain num_tab example_sexp with
   | Some sd => Nat.eqb (List.length (sd_actions sd)) 3 | None => false end = true.
+Proof. vm_compute. reflexivity. Qed.
+
+(* it is a domain of the supported fragment G *)
+Example example_in_G : G num_tab example_sexp = true.
 Proof. vm_compute. reflexivity. Qed.
 
 Example example_sections_once : sections_once example_sexp.
